@@ -333,7 +333,11 @@ func cmdCheck(args []string) {
 		case "failed":
 			addFail(s.Name, "obligation not discharged", s)
 		case "vacuous":
-			addFail(s.Name, "preconditions/axioms are contradictory (vacuous proof)", s)
+			if strings.Contains(s.Name, ".cover_") {
+				addFail(s.Name, "completeness probe: no feasible path reaches this call with the stated condition", s)
+			} else {
+				addFail(s.Name, "preconditions/axioms are contradictory (vacuous proof)", s)
+			}
 		}
 	}
 	for _, n := range expected {
@@ -495,7 +499,7 @@ func runCanaryChild(pc *PropConfig, i int, timeout int) {
 		os.Exit(12)
 	}
 	for _, e := range c.Expect {
-		if s, ok := rr.ByName[e]; ok && s.Status == "failed" {
+		if s, ok := rr.ByName[e]; ok && (s.Status == "failed" || (s.Status == "vacuous" && strings.Contains(e, ".cover_"))) {
 			fmt.Println("detected:", e)
 			os.Exit(10)
 		}
